@@ -127,7 +127,7 @@ class FakeTransport(asyncio.Transport):
 class World:
     """Owns the loop, the clock, the dial script and all records."""
 
-    def __init__(self, kind, reconnect_timeout, version="2.2"):
+    def __init__(self, kind, reconnect_timeout, version="2.2", save_fails=False):
         import mysensors.gateway_serial as gs
         import mysensors.gateway_tcp as gt
         import mysensors.mysensors as api
@@ -166,12 +166,20 @@ class World:
 
         self._saved["gt.time"] = gt.time
         gt.time = _Time
+        # a gateway with persistence whose final save (inside stop()) fails: disk full
+        pkw = {}
+        if save_fails:
+            import tempfile
+
+            self._pdir = tempfile.mkdtemp(prefix="vf_c20_")
+            pkw = {"persistence": True, "persistence_file": self._pdir + "/net.json"}
         if kind == "serial":
             self._saved["create_serial"] = gs.serial_asyncio.create_serial_connection
             gs.serial_asyncio.create_serial_connection = self._create_serial
-            self.gw = api.AsyncSerialGateway("/dev/ttyFAKE", reconnect_timeout=reconnect_timeout, protocol_version=version)
+            self.gw = api.AsyncSerialGateway("/dev/ttyFAKE", reconnect_timeout=reconnect_timeout, protocol_version=version, **pkw)
         else:
-            self.gw = api.AsyncTCPGateway("10.0.0.1", reconnect_timeout=reconnect_timeout, protocol_version=version)
+            self.gw = api.AsyncTCPGateway("10.0.0.1", reconnect_timeout=reconnect_timeout, protocol_version=version, **pkw)
+        self._arm_save_failure(save_fails)
         self.loop.create_connection = self._create_connection
         self.loop.run_in_executor = self._inline_executor
         self.gw.on_conn_made = lambda gw: (self.made.append({"t": self.clock.t, "gw": gw, "cid": self._current_cid()}), self.log.append((self.clock.t, "on_conn_made")))[0]
@@ -179,6 +187,10 @@ class World:
         self.stopped_at = None
 
     def close(self):
+        if getattr(self, "_pdir", None):
+            import shutil
+
+            shutil.rmtree(self._pdir, ignore_errors=True)
         try:
             pending = [t for t in asyncio.all_tasks(self.loop) if not t.done()]
             for t in pending:
@@ -282,11 +294,25 @@ class World:
         self.loop.run_until_complete(self.gw.start())
         self.settle()
 
+    def _arm_save_failure(self, save_fails):
+        self.stop_raised = None
+        if not save_fails:
+            return
+
+        def no_space():
+            raise OSError(28, "No space left on device")
+
+        self.gw.tasks.persistence.save_sensors = no_space
+
     def stop(self):
         live = self.live_conn()
         self.user_closing = True
         try:
             self.loop.run_until_complete(self.gw.stop())
+        except OSError as exc:
+            if "No space left" not in str(exc):
+                raise
+            self.stop_raised = exc  # the injected save failure; stop() must have shut the link down regardless
         finally:
             self.user_closing = False
         self.stopped_at = self.clock.t
